@@ -504,7 +504,11 @@ func (h *circRun) startCall(id int, cs callSpec) {
 			rt.phase = "run"
 			h.settled <- struct{}{}
 			op := <-rt.resume
-			h.add(fmt.Sprintf("ORunEnd %d%%nat %s", id, hc.B(rctx.Err() != nil)), evRec{Kind: "runend", ID: id, B: rctx.Err() != nil})
+			ended := rctx.Err() != nil
+			if hc.PastEpoch {
+				ended = ctx.Err() != nil // the derived deadline has long passed on the wall clock: report the caller's side only
+			}
+			h.add(fmt.Sprintf("ORunEnd %d%%nat %s", id, hc.B(ended)), evRec{Kind: "runend", ID: id, B: ended})
 			switch op.Res {
 			case "nil":
 				return nil
